@@ -264,7 +264,11 @@ class ListV(V):
 
     def extend(self, seq):
         old, base, m = self.fn, self.n, seq
-        self.fn = lambda j: vite(j < base, old(j), m.at(j - base))
+        b0 = z3.simplify(base)
+        if z3.is_int_value(b0) and b0.as_long() == 0:
+            self.fn = lambda j: m.at(j)  # extending an empty list: the source decides the element shape
+        else:
+            self.fn = lambda j: vite(j < base, old(j), m.at(j - base))
         self.n = base + seq.n
 
     def snapshot(self, kind="list", meta=None):
@@ -292,6 +296,8 @@ def vite(cond, a, b):
     if isinstance(a, ObjV) and isinstance(b, ObjV) and a.cls == b.cls and callable(a.fields.get("__mk__")):
         return a.fields["__mk__"](z3.If(cond, Z(a.fields["__id__"]), Z(b.fields["__id__"])))
     if isinstance(a, SeqV) and isinstance(b, SeqV):
+        if a.meta.get("tterm") is not None and b.meta.get("tterm") is not None:
+            return from_T(z3.If(cond, a.meta["tterm"], b.meta["tterm"]))
         return SeqV(z3.If(cond, a.n, b.n), lambda i: vite(cond, a.at(i), b.at(i)), a.kind)
     raise Unsupported(f"if-then-else between {type(a).__name__} and {type(b).__name__}")
 
@@ -387,3 +393,96 @@ def veq(a, b):
         v = IntV(xs[0]) if a.arity == 1 else TupV([IntV(x) for x in xs])
         return z3.ForAll(xs, B(a.contains(v)) == B(b.contains(v)))
     raise Unsupported(f"== between {type(a).__name__} and {type(b).__name__}")
+
+
+# --------------------------------------------------------------------------- tuples as first-class terms
+# A sequence of integer tuples (the output of a generator that yields index tuples) needs its
+# rows to be *terms*, so that facts quantified over "every integer tuple t" can be instantiated
+# at a row and a completeness claim "every such t is listed" can be stated.  TUP is an
+# uninterpreted sort with TLEN / TEL (length, element); the intended model is "all finite integer
+# sequences".  TID is a trigger-only function (its value is never constrained).
+TUP = z3.DeclareSort("IntTuple")
+TLEN = z3.Function("tlen", TUP, z3.IntSort())
+TEL = z3.Function("tel", TUP, z3.IntSort(), z3.IntSort())
+TID = z3.Function("tid", TUP, z3.IntSort())
+
+
+def from_T(tau):
+    """View of a tuple term as a sequence value."""
+    return SeqV(TLEN(tau), lambda j, tau=tau: IntV(TEL(tau, j)), "tuple", {"tterm": tau})
+
+
+def as_T(seq, assume):
+    """Tuple term denoting the integer sequence `seq` (a fresh constant with its defining axiom:
+    the intended model contains every finite integer sequence)."""
+    if isinstance(seq, TupV):
+        items = seq.items
+        seq = SeqV(len(items), lambda j, items=items: _ite_chain(j, items), "tuple")
+    if isinstance(seq, ListV):
+        seq = seq.snapshot()
+    tau = seq.meta.get("tterm") if isinstance(seq, SeqV) else None
+    if tau is not None:
+        return tau
+    if not isinstance(seq, SeqV):
+        raise Unsupported(f"not a tuple of integers: {seq!r}")
+    tau = z3.Const(f"tup!{next(_fresh)}", TUP)
+    j = fresh("tj")
+    assume(TLEN(tau) == seq.n)
+    assume(z3.ForAll([j], z3.Implies(z3.And(j >= 0, j < seq.n), TEL(tau, j) == Z(seq.at(j))), patterns=[TEL(tau, j)], qid="tuple-def"))
+    return tau
+
+
+def _ite_chain(j, items):
+    if not items:
+        return IntV(0)
+    out = items[-1]
+    for k in range(len(items) - 2, -1, -1):
+        out = vite(j == k, items[k], out)
+    return out
+
+
+class TupListV(V):
+    """Mutable list of integer tuples: length term + ROW : Int -> IntTuple (an uninterpreted function;
+    every append / extend introduces a NEW function symbol with its defining axioms, stated with
+    triggers in both directions so that E-matching can move between the old and the new list)."""
+
+    def __init__(self, n, row):
+        self.n = Z(n)
+        self.row = row
+
+    def copy(self):
+        return TupListV(self.n, self.row)
+
+    def at(self, m):
+        return from_T(self.row(Z(m)))
+
+    def __getitem__(self, m):
+        return self.at(m)
+
+    def snapshot(self, kind="list", meta=None):
+        row, n = self.row, self.n
+        m_ = dict(meta or {})
+        m_["rowfun"] = row
+        return SeqV(n, lambda m, row=row: from_T(row(Z(m))), kind, m_)
+
+    def append(self, tau, assume):
+        old, n = self.row, self.n
+        new = fresh_fun("row", z3.IntSort(), TUP)
+        m = fresh("rm")
+        assume(z3.ForAll([m], z3.Implies(z3.And(m >= 0, m < n), new(m) == old(m)), patterns=[new(m), old(m)], qid="append-old"))
+        assume(new(n) == tau)
+        self.row, self.n = new, n + 1
+        return new
+
+    def extend(self, other_n, other_row, assume):
+        old, n = self.row, self.n
+        new = fresh_fun("row", z3.IntSort(), TUP)
+        m = fresh("rm")
+        assume(z3.ForAll([m], z3.Implies(z3.And(m >= 0, m < n), new(m) == old(m)), patterns=[new(m), old(m)], qid="extend-old"))
+        assume(z3.ForAll([m], z3.Implies(z3.And(m >= 0, m < other_n), new(n + m) == other_row(m)), patterns=[other_row(m)], qid="extend-new-fwd"))
+        assume(z3.ForAll([m], z3.Implies(z3.And(m >= n, m < n + other_n), new(m) == other_row(m - n)), patterns=[new(m)], qid="extend-new-bwd"))
+        self.row, self.n = new, n + other_n
+        return new
+
+    def __repr__(self):
+        return f"TupListV(n={self.n})"
